@@ -395,6 +395,11 @@ def instances(tier):
             for ps, pe in itertools.product((0, 1), repeat=2):
                 out.append(inst_plan(m, ps, pe, st))
         out.append(inst_plan_int(m))
+    if q:
+        # zero-width chunks (legal layouts, e.g. after boolean filtering)
+        for st in (None, -1, -2, 2):
+            for ps, pe in ((0, 0), (1, 1)):
+                out.append(inst_plan(3, ps, pe, st, lo=0))
     if not q:
         for m in (2, 3):
             for st in (None, 2, -1, -2):
